@@ -65,6 +65,7 @@ func c16(c *core.Check) {
 	c16WrapperProperties(c)
 	c16ZIndexPositioned(c)
 	c16InsertPositions(c)
+	c16ContainerClasses(c)
 
 	dsc := p.Method("html/document", "drawContext", "drawStackingContext")
 	if dsc == nil {
